@@ -60,6 +60,9 @@ JudgeEq(C) ==
       ELSE IF \E i, j \in 1..n : E(i, j) /\ C.hash[i] # C.hash[j] THEN "eq-but-different-hash"
       ELSE IF \E i, j \in 1..n : C.ground[i] = 1 /\ C.ground[j] = 1 /\ C.unif[i][j] # 2
                                   /\ E(i, j) # (C.unif[i][j] = 1) THEN "eq-differs-from-unification"
+      \* == is a relation on terms, not on object histories: the matrix observed before any hash was taken (eq0)
+      \* and the one observed on the same objects afterwards (eq) are the same
+      ELSE IF \E i, j \in 1..n : C.eq0[i][j] # C.eq[i][j] THEN "eq-changes-after-hashing"
       ELSE ""
 
 JudgeCase(C) ==
